@@ -89,9 +89,21 @@ static void push_file(FILE *file) {
 }
 
 static char *indent(TestReporter *reporter) {
-    static char buffer[1000];
+    static char first_buffer[1000];
+    static char *buffer = first_buffer;
+    static int buffer_size = sizeof(first_buffer);
     int depth = get_breadcrumb_depth(reporter->breadcrumb);
 
+    if (depth + 1 > buffer_size) {
+        /* deeper nesting than the static buffer has room for */
+        char *larger = (char *)malloc((size_t)depth + 1000);
+        if (larger == NULL)
+            PANIC("Out of memory for nested suites");
+        if (buffer != first_buffer)
+            free(buffer);
+        buffer = larger;
+        buffer_size = depth + 1000;
+    }
     memset(buffer, '\0', depth+1);
     memset(buffer, '\t', depth);
     return buffer;
